@@ -174,6 +174,36 @@ def make_probes(rng, sheets, cells, with_names):
             ('call', 'SUM', [b, lrg, a]),
         ]
         place(home, rng.choice(variants), 'after-cross-sheet', '', ())
+    # 5b. the same rectangle spelt twice (with and without $) in ONE formula
+    for _ in range(4):
+        home = rng.choice(sheets)
+        c1, r1 = rng.randint(1, NCOL - 1), rng.randint(1, NROW - 1)
+        c2, r2 = rng.randint(c1, NCOL), rng.randint(r1, NROW)
+        fl = rng.choice([(True, True, True, True), (True, False, True, False),
+                         (False, True, False, True), (True, True, False,
+                                                      False)])
+        a = ('rng', None, c1, r1, c2, r2, fl)
+        b = ('rng', None, c1, r1, c2, r2, (False,) * 4)
+        first, second = (a, b) if rng.random() < 0.5 else (b, a)
+        place(home, ('bin', '+', ('call', 'SUM', [first]),
+                     ('call', 'SUM', [second])), 'two-spellings', 'SUM+SUM',
+              (), (c2 - c1 + 1, r2 - r1 + 1))
+    # 5c. the same formula text on two sheets (unqualified references)
+    if len(sheets) >= 2:
+        for _ in range(3):
+            s1, s2 = rng.sample(sheets, 2)
+            c, r = rng.randint(1, NCOL), rng.randint(1, NROW)
+            twin = rng.choice([
+                ('bin', '*', ('ref', None, c, r, False, False),
+                 ('lit', 2, '2')),
+                ('call', 'SUM', [('rng', None, 1, 1, 2, 2, (False,) * 4)]),
+                ('bin', '+', ('ref', None, c, r, False, False),
+                 ('call', 'COUNTA', [('rng', None, 1, 1, 3, 2,
+                                      (False,) * 4)])),
+            ])
+            for sh_ in (s1, s2):
+                place(sh_, twin, 'twin-text', '', (), None,
+                      col=PROBE_COL0 + 2)
     # 6. empty cells
     for _ in range(3):
         home = rng.choice(sheets)
